@@ -13,8 +13,8 @@ from . import common
 ID = "C09"
 NEEDS_MODEL = False
 LEVEL = "exploration"
-N = {"quick": 3200, "thorough": 40000}
-NEXPR = {"quick": 6000, "thorough": 60000}
+N = {"quick": 3200, "thorough": 100000}
+NEXPR = {"quick": 6000, "thorough": 200000}
 TECHNIQUE = ("runtime monitoring: structural monitor comparing the HiFiber tree the real translator "
              "built with Python's own parse of the text it printed, over seeded generated specs and "
              "direct drives of the expression builders")
